@@ -286,6 +286,19 @@ def sealTrace (c : Cfg) (f : Facts) (p : Plan) (oi os : List Bool) : Bool × Lis
                         ++ releaseOps c                                          -- active.Release()
             else []))
 
+/-- durable before visible: scanning the operations with the set of files that were written since their last fsync
+(`dirty`), every `rename a b` finds `a` clean - the last thing that happened to `a` was its `sync`.  Every file
+starts dirty, so a rename needs an explicit earlier `sync`. -/
+def syncedBeforeRename : List Op → (Suffix → Bool) → Bool
+  | [], _ => true
+  | .create s :: r, d => syncedBeforeRename r (fun x => if x = s then true else d x)
+  | .write s :: r, d => syncedBeforeRename r (fun x => if x = s then true else d x)
+  | .lose s :: r, d => syncedBeforeRename r (fun x => if x = s then true else d x)
+  | .touch s :: r, d => syncedBeforeRename r (fun x => if x = s then true else d x)
+  | .sync s :: r, d => syncedBeforeRename r (fun x => if x = s then false else d x)
+  | .rename a b :: r, d => !d a && syncedBeforeRename r (fun x => if x = b then false else d x)
+  | _ :: r, d => syncedBeforeRename r d
+
 /-- `Q` holds before every operation of the list (state, next operation), `P` holds in every state reached -/
 def Along (P : St → Prop) (Q : St → Op → Prop) : List Op → St → Prop
   | [], st => P st
